@@ -205,7 +205,8 @@ def rl_decode_ref(enc: bytes) -> bytes:
 
 
 # --------------------------------------------------------------------------- LZW (PDF flavour, EarlyChange = 1)
-LZW_CLEARS = ["start", "freq", "pre-eod"]
+# "late": a clear-table code after every 255 data codes, i.e. right after the code length has grown to 10 bits
+LZW_CLEARS = ["start", "freq", "pre-eod", "late"]
 
 
 class _BitWriter:
@@ -272,7 +273,7 @@ def lzw_encode(data: bytes, clears: str = "start", early: int = 1) -> bytes:
         table[omega + ch] = next_code
         next_code += 1
         omega = ch
-        if next_code == 4094 or (clears == "freq" and k % 64 == 0):
+        if next_code == 4094 or (clears == "freq" and k % 64 == 0) or (clears == "late" and k % 255 == 0):
             emit(256)
             reset()
     if omega:
